@@ -163,6 +163,85 @@ func c02ElementsDescend(c *Ctx, cp *copier, rule string) {
 		}
 	}
 
+	// the slice handler: a return that skips the hand-over to the array handler (which visits the elements)
+	// is only reachable for a nil input or for element kinds that cannot hold references
+	sl := cp.hSlice
+	var handOver *ssa.Call
+	for _, ci := range callsToFn(sl, cp.hArray) {
+		handOver = ci.(*ssa.Call)
+	}
+	if handOver == nil {
+		for _, ci := range callsToFn(sl, cp.dispatch) {
+			handOver = ci.(*ssa.Call)
+		}
+	}
+	if handOver == nil {
+		c.bad(rule, relName(sl)+"#elements", sl.Pos(), "the slice handler never hands its elements to the array handler / dispatcher")
+	} else {
+		sin := sl.Params[1]
+		nilIn := "(reflect.Value).IsNil(" + sin.Name() + ")"
+		pb := &predBuilder{}
+		for _, r := range returnsOf(sl) {
+			if handOver.Block() == r.Block() || handOver.Block().Dominates(r.Block()) {
+				continue
+			}
+			g := pb.pathCondAvoid(sl.Blocks[0], r.Block(), map[*ssa.BasicBlock]bool{handOver.Block(): true})
+			fb, fi := map[string]bool{}, map[string]bool{}
+			atomsOf(g, fb, fi)
+			var kindAtoms []string
+			doms := map[string][]int64{}
+			for a := range fi {
+				if strings.Contains(a, "Kind(") && strings.Contains(a, "Elem(") && strings.Contains(a, "Type("+sin.Name()+")") {
+					kindAtoms = append(kindAtoms, a)
+					doms[a] = allKinds
+				}
+			}
+			_, counter := forAll(g, doms, func(e env, fv bool) bool {
+				if !fv {
+					return true
+				}
+				if fb[nilIn] && e.B[nilIn] {
+					return true
+				}
+				for _, a := range kindAtoms {
+					if !refBearingKinds[e.I[a]] {
+						return true
+					}
+				}
+				return false
+			})
+			c.check(counter == "", rule, relName(sl)+"#bypass", r.Pos(), "a return that skips the element visit is only reachable for a nil slice or element kinds that cannot hold references",
+				"the slice handler can return without visiting the elements of a non-nil slice whose element kind can hold references (e.g. a bulk reflect.Copy that forgets arrays of pointers): they stay aliased to the input: "+counter)
+		}
+	}
+
+	// the map handler inserts only deep-copied keys and values: both operands of SetMapIndex are temporaries that
+	// were handed to the dispatcher as outputs earlier in the same iteration
+	mh := cp.hMap
+	nIns := 0
+	for _, i := range allInstrs(mh) {
+		ins, ok := i.(*ssa.Call)
+		if !ok || calleeFullName(ins) != "(reflect.Value).SetMapIndex" {
+			continue
+		}
+		nIns++
+		for ai, what := range map[int]string{1: "key", 2: "value"} {
+			operand := ins.Call.Args[ai]
+			copied := false
+			for _, ci := range callsToFn(mh, cp.dispatch) {
+				dc := ci.(*ssa.Call)
+				if dc.Call.Args[2] == operand && domI(dc, ins) && isFreshAlloc(operand) {
+					copied = true
+				}
+			}
+			c.check(copied, rule, relName(mh)+"#insert-"+what, ins.Pos(), "the "+what+" inserted into the new map is a fresh temporary filled by the dispatcher",
+				"the map handler inserts a "+what+" that was not deep-copied (a pointer "+what+", or a struct "+what+" containing pointers, keeps pointing into the input)")
+		}
+	}
+	if nIns == 0 {
+		c.bad(rule, relName(mh)+"#insert", mh.Pos(), "the map handler never inserts into the new map")
+	}
+
 	// the map handler's entry loop: MapIter.Next loop without other exits
 	m := cp.hMap
 	for _, i := range allInstrs(m) {
